@@ -83,6 +83,12 @@ pub trait Lab<C: Ciphersuite> {
     /// numeric order of two (concrete) scalars as integers in [0, q), independent of
     /// `Identifier::cmp`
     fn cmp_scalars(&mut self, a: Scalar<C>, b: Scalar<C>) -> core::cmp::Ordering;
+    /// start/stop recording which scalars the code under test turns into bytes
+    fn watch_serialization(&mut self, on: bool);
+    /// Does `rendered` (a debug rendering produced while watching) reveal any of `secrets`?
+    /// Symbolic: a scalar depending on a secret was serialised while rendering, or the secret's
+    /// block encoding occurs in the text. Concrete: the hex of a secret's encoding occurs.
+    fn leaked(&mut self, rendered: &str, secrets: &[Scalar<C>]) -> bool;
     /// free-form note into the evidence
     fn note(&mut self, s: &str) {
         let _ = s;
